@@ -23,7 +23,7 @@
    finaliser loops run as ghosts ([EFini t] = element t abandoned, its bytes stay).  Every theorem below
    that quantifies over [e] therefore holds for ALL THREE shapes (examples for each at the end). *)
 From MptV Require Import Base.Mem C05.TypedModel C05.TypedSpec C05.TypedMonitor C05.TypedLoops C05.TypedOps
-  C05.TypedSet C05.TypedWorld C05.TypedStep C05.TypedRun C05.TypedShared.
+  C05.TypedSet C05.TypedWorld C05.TypedStep C05.TypedRun C05.TypedShared C05.TypedMove.
 
 (* Every history of new/reserve/set/insert/cut/detach/clone/release/trim/skip/append/set_length/
    copy/move, any arguments (positions and lengths inside, at the end of, behind the data, misaligned),
@@ -114,6 +114,82 @@ Proof. exact mon_log_sound. Qed.
 Theorem C05_monitor_nofini_complete :
   forall obs, monitor_nf mon0 obs = monitor mon0 (complete_obs mon0 obs).
 Proof. exact monitor_nf_complete0. Qed.
+
+(* ---- buffer::move / buffer::copy between TWO buffers of the same content traits ---- *)
+
+(* buffer::move(target h, source g) after any history, two different typed buffers of the same traits, the
+   source's data fits into the target's block - ANY fill of the two (target empty / shorter / equal / longer,
+   source empty), all three shapes: the step is accepted and logs exactly one destructor call for EVERY
+   element the target held, first to last, and nothing else (no constructor, no call on an element of the
+   source, no script entry read); the target's elements are then the source's (bitwise take-over: the same
+   tokens), the source is empty, no other buffer and no handle changes. *)
+Theorem C05_move_finalises_target_takes_source :
+  forall e nh script ops w h g id gid b gb k,
+    env_ok e -> exec e (init_world nh script) ops = Ok w -> h < nh -> g < nh ->
+    handle w h = Some id -> handle w g = Some gid -> id <> gid ->
+    hget w id = Some b -> hget w gid = Some gb -> btr b = Some k -> btr gb = Some k -> bused gb <= bsize b ->
+    exists w' b' gb',
+      step e w (OpMove h g) = Ok (w', OOk)
+      /\ whnd w' = whnd w
+      /\ hget w' id = Some b' /\ hget w' gid = Some gb'
+      /\ (forall j, j <> id -> j <> gid -> hget w' j = hget w j)
+      /\ clog (wctx w') = rev (map EFini (buf_els e b)) ++ clog (wctx w)
+      /\ cnext (wctx w') = cnext (wctx w) /\ cscript (wctx w') = cscript (wctx w)
+      /\ buf_els e b' = buf_els e gb /\ bused b' = bused gb
+      /\ buf_els e gb' = [] /\ bused gb' = 0.
+Proof. exact move_reachable. Qed.
+
+(* buffer::move that is not carried out - the buffer itself as source (same handle or two handles of one
+   buffer: reported as success), other content traits, source data larger than the target's block (both
+   refused): NOTHING happens - no event, same context, same handles, every buffer as before. *)
+Theorem C05_move_refused_changes_nothing :
+  forall e nh script ops w h g id gid b gb,
+    env_ok e -> exec e (init_world nh script) ops = Ok w -> h < nh -> g < nh ->
+    handle w h = Some id -> handle w g = Some gid ->
+    hget w id = Some b -> hget w gid = Some gb ->
+    id = gid \/ btr b <> btr gb \/ bsize b < bused gb ->
+    exists w' o,
+      step e w (OpMove h g) = Ok (w', o)
+      /\ o = (if id =? gid then OOk else ORefused)
+      /\ whnd w' = whnd w /\ wctx w' = wctx w /\ (forall j, hget w' j = hget w j).
+Proof. exact move_refused_reachable. Qed.
+
+(* buffer::copy(target h, source g), traits WITH init function (ShFull, ShInit), the type allows copies, the
+   remaining constructor calls succeed, any fill of the two buffers: with n = number of source elements the
+   log grows (chronologically) by one destructor call for each of the first n target elements, one copy
+   construction [EInit new_i (Some source_i)] per source element in order, one destructor call for each
+   target element behind the n-th; the target then holds n FRESH tokens (no element bytes of the source are
+   duplicated), the source and every other buffer are untouched. *)
+Theorem C05_copy_finalises_target_constructs_copies :
+  forall e nh script ops w h g id gid b gb k,
+    env_ok e -> exec e (init_world nh script) ops = Ok w -> h < nh -> g < nh ->
+    handle w h = Some id -> handle w g = Some gid -> id <> gid ->
+    hget w id = Some b -> hget w gid = Some gb -> btr b = Some k -> btr gb = Some k -> bused gb <= bsize b ->
+    ehi e = true -> ecopyfail e = false -> cscript (wctx w) = [] ->
+    exists w' b',
+      step e w (OpCopy h g) = Ok (w', OOk)
+      /\ whnd w' = whnd w
+      /\ hget w' id = Some b' /\ (forall j, j <> id -> hget w' j = hget w j)
+      /\ clog (wctx w') = rev (map EFini (skipn (length (buf_els e gb)) (buf_els e b)))
+                          ++ rev (copy_events (cnext (wctx w)) (buf_els e gb))
+                          ++ rev (map EFini (firstn (length (buf_els e gb)) (buf_els e b))) ++ clog (wctx w)
+      /\ buf_els e b' = seq (cnext (wctx w)) (length (buf_els e gb)) /\ bused b' = bused gb
+      /\ (forall t, In t (buf_els e b') -> ~ In t (buf_els e gb)).
+Proof. exact copy_reachable. Qed.
+
+(* buffer::copy, traits with a finaliser but WITHOUT init function (ShFini), source holds elements: they cannot
+   be copied (mpt_buffer_set refuses, docs/C05_set_noinit_copy.diff) - refused, nothing happens, in
+   particular no element of the target is finalised and no element bytes are duplicated. *)
+Theorem C05_copy_noinit_refused :
+  forall e nh script ops w h g id gid b gb k,
+    env_ok e -> exec e (init_world nh script) ops = Ok w -> h < nh -> g < nh ->
+    handle w h = Some id -> handle w g = Some gid -> id <> gid ->
+    hget w id = Some b -> hget w gid = Some gb -> btr b = Some k -> btr gb = Some k -> bused gb <= bsize b ->
+    ehi e = false -> ehf e = true -> 0 < bused gb ->
+    exists w',
+      step e w (OpCopy h g) = Ok (w', ORefused)
+      /\ whnd w' = whnd w /\ wctx w' = wctx w /\ (forall j, hget w' j = hget w j).
+Proof. exact copy_noinit_reachable. Qed.
 
 (* ---- non-vacuity ---- *)
 Definition ex_env : env := mkenv 8 16 64 128 false ShFull.
@@ -226,6 +302,60 @@ Example C05_monitor_nofini_rejects :
   = [None; None; Some (VStoredDead 0)].
 Proof. split; reflexivity. Qed.
 
+(* two buffers that both hold elements (target 0, 1 / source 2, 3, 4): the hypotheses of the move / copy
+   theorems are met by a reachable world; move finalises 0 and 1 and nothing of the source, whose elements
+   are finalised once when the TARGET's handle is released; copy into the shorter and into the longer
+   target (fini-only traits: same move log) *)
+Definition ex_pair (n0 n1 : nat) : list op :=
+  [OpNew 0 (Some KA) 0 false false; OpAppend 0 n0; OpNew 1 (Some KA) 0 false false; OpAppend 1 n1].
+Example C05_pair_example :
+  match exec ex_env (init_world 2 []) (ex_pair 16 24) with
+  | Ok w =>
+    handle w 0 = Some 0 /\ handle w 1 = Some 1 /\ cscript (wctx w) = [] /\
+    match hget w 0, hget w 1 with
+    | Some b, Some gb => btr b = Some KA /\ btr gb = Some KA /\ bused gb <= bsize b
+                         /\ buf_els ex_env b = [0; 1] /\ buf_els ex_env gb = [2; 3; 4]
+    | _, _ => False
+    end
+  | _ => False
+  end.
+Proof. vm_compute. repeat split; try reflexivity. lia. Qed.
+Example C05_move_example_log :
+  match exec ex_env (init_world 2 []) (ex_pair 16 24 ++ [OpMove 0 1] ++ release_all 2),
+        exec ex_env_fini (init_world 2 []) (ex_pair 16 24 ++ [OpMove 0 1] ++ release_all 2) with
+  | Ok w, Ok wf =>
+    rev (clog (wctx w)) = [EInit 0 None; EInit 1 None; EInit 2 None; EInit 3 None; EInit 4 None;
+                           EFini 0; EFini 1; EFini 2; EFini 3; EFini 4]
+    /\ mon_log (clog (wctx w)) = inl (mkmon [] 5) /\ clog (wctx wf) = clog (wctx w)
+  | _, _ => False
+  end.
+Proof. vm_compute. repeat split; reflexivity. Qed.
+Example C05_copy_example_log :
+  match exec ex_env (init_world 2 []) (ex_pair 16 24 ++ [OpCopy 0 1] ++ release_all 2),
+        exec ex_env (init_world 2 []) (ex_pair 24 8 ++ [OpCopy 0 1] ++ release_all 2) with
+  | Ok w, Ok w2 =>
+    rev (clog (wctx w)) = [EInit 0 None; EInit 1 None; EInit 2 None; EInit 3 None; EInit 4 None;
+                           EFini 0; EFini 1; EInit 5 (Some 2); EInit 6 (Some 3); EInit 7 (Some 4);
+                           EFini 5; EFini 6; EFini 7; EFini 2; EFini 3; EFini 4]
+    /\ rev (clog (wctx w2)) = [EInit 0 None; EInit 1 None; EInit 2 None; EInit 3 None;
+                               EFini 0; EInit 4 (Some 3); EFini 1; EFini 2; EFini 4; EFini 3]
+    /\ mon_log (clog (wctx w)) = inl (mkmon [] 8) /\ mon_log (clog (wctx w2)) = inl (mkmon [] 5)
+  | _, _ => False
+  end.
+Proof. vm_compute. repeat split; reflexivity. Qed.
+(* a move that finalises only the target's EXCESS elements (the seeded change of mpt++/array.cpp) logs NO
+   event for "target 0, 1 <- source 2, 3, 4"; the monitor, given the log and what the buffers store after
+   the step, rejects it: element 1 (and 0) is live and stored nowhere.  With the destructor calls of the model it
+   accepts. *)
+Example C05_move_excess_only_is_rejected :
+  monitor mon0 [Some ([EInit 0 None; EInit 1 None; EInit 2 None; EInit 3 None; EInit 4 None],
+                      [STok 0; STok 1; STok 2; STok 3; STok 4]);
+                Some ([], [STok 2; STok 3; STok 4])] = [None; Some (VLost 1)]
+  /\ monitor mon0 [Some ([EInit 0 None; EInit 1 None; EInit 2 None; EInit 3 None; EInit 4 None],
+                         [STok 0; STok 1; STok 2; STok 3; STok 4]);
+                   Some ([EFini 0; EFini 1], [STok 2; STok 3; STok 4])] = [None; None].
+Proof. vm_compute. split; reflexivity. Qed.
+
 Print Assumptions C05_elements_exactly_once.
 Print Assumptions C05_stored_is_live_at_every_point.
 Print Assumptions C05_shared_copy_constructs.
@@ -233,3 +363,7 @@ Print Assumptions C05_step_never_faults.
 Print Assumptions C05_monitor_sound.
 Print Assumptions C05_shared_noinit_refused.
 Print Assumptions C05_monitor_nofini_complete.
+Print Assumptions C05_move_finalises_target_takes_source.
+Print Assumptions C05_move_refused_changes_nothing.
+Print Assumptions C05_copy_finalises_target_constructs_copies.
+Print Assumptions C05_copy_noinit_refused.
